@@ -255,6 +255,136 @@ pub fn gen_unknown_text(t: &mut Tape, ascii_only: bool, max: usize) -> Vec<u8> {
     out
 }
 
+
+/// A TCP6 line, every field well-formed, whose total length including CRLF is exactly `target` (clamped to what
+/// the grammar can reach: 48..=116). Built by construction: every hex group, dotted-quad octet and port gets a
+/// width, widths are nudged until the total matches, then values of exactly those widths are drawn. Lines of
+/// 105..=107 bytes (only reachable with a dotted-quad tail) and of 108 bytes exactly come from here.
+pub fn gen_tcp6_line_of_len(t: &mut Tape, target: usize) -> Vec<u8> {
+    // slots: (min width, max width, current)
+    #[derive(Clone, Copy)]
+    struct Slot {
+        lo: usize,
+        hi: usize,
+        w: usize,
+    }
+    let quads = match t.below(4) {
+        0 => [false, false],
+        1 => [true, false],
+        2 => [false, true],
+        _ => [true, true],
+    };
+    // reachable range for this quad configuration
+    let mut slots: Vec<Slot> = Vec::new();
+    let mut fixed = 11 + 3 + 2; // "PROXY TCP6 " + three spaces + CRLF
+    for q in quads {
+        if q {
+            fixed += 6 + 3; // six colons, three dots
+            for _ in 0..6 {
+                slots.push(Slot { lo: 1, hi: 4, w: 1 });
+            }
+            for _ in 0..4 {
+                slots.push(Slot { lo: 1, hi: 3, w: 1 });
+            }
+        } else {
+            fixed += 7;
+            for _ in 0..8 {
+                slots.push(Slot { lo: 1, hi: 4, w: 1 });
+            }
+        }
+    }
+    slots.push(Slot { lo: 1, hi: 5, w: 1 });
+    slots.push(Slot { lo: 1, hi: 5, w: 1 });
+    let lo: usize = fixed + slots.iter().map(|s| s.lo).sum::<usize>();
+    let hi: usize = fixed + slots.iter().map(|s| s.hi).sum::<usize>();
+    let target = target.clamp(lo, hi);
+    // start from random widths, then nudge
+    for s in slots.iter_mut() {
+        s.w = t.usize_in(s.lo, s.hi);
+    }
+    let mut total: usize = fixed + slots.iter().map(|s| s.w).sum::<usize>();
+    let mut guard = 0;
+    while total != target && guard < 10_000 {
+        guard += 1;
+        let i = t.below(slots.len() as u32) as usize;
+        if total < target && slots[i].w < slots[i].hi {
+            slots[i].w += 1;
+            total += 1;
+        } else if total > target && slots[i].w > slots[i].lo {
+            slots[i].w -= 1;
+            total -= 1;
+        }
+    }
+    // deterministic completion if the tape ran dry (zeros always pick slot 0)
+    let mut i = 0;
+    while total != target {
+        let k = i % slots.len();
+        if total < target && slots[k].w < slots[k].hi {
+            slots[k].w += 1;
+            total += 1;
+        } else if total > target && slots[k].w > slots[k].lo {
+            slots[k].w -= 1;
+            total -= 1;
+        }
+        i += 1;
+    }
+    let mut k = 0;
+    let mut hexgrp = |t: &mut Tape, w: usize| -> String {
+        // value with s significant digits, zero-padded to w; upper or lower case
+        let s = t.usize_in(1, w);
+        let lo = if s == 1 { 0u32 } else { 1u32 << (4 * (s - 1)) };
+        let hi = (1u32 << (4 * s)) - 1;
+        let v = t.range(lo, hi);
+        if t.chance(1, 4) {
+            format!("{:0w$X}", v, w = w)
+        } else {
+            format!("{:0w$x}", v, w = w)
+        }
+    };
+    let octet = |t: &mut Tape, w: usize| -> String {
+        match w {
+            1 => t.range(0, 9).to_string(),
+            2 => t.range(10, 99).to_string(),
+            _ => t.range(100, 255).to_string(),
+        }
+    };
+    let port = |t: &mut Tape, w: usize| -> String {
+        match w {
+            1 => t.range(0, 9).to_string(),
+            2 => t.range(10, 99).to_string(),
+            3 => t.range(100, 999).to_string(),
+            4 => t.range(1000, 9999).to_string(),
+            _ => t.range(10000, 65535).to_string(),
+        }
+    };
+    let mut line = String::from("PROXY TCP6 ");
+    for q in quads {
+        let nhex = if q { 6 } else { 8 };
+        let mut parts: Vec<String> = Vec::new();
+        for _ in 0..nhex {
+            parts.push(hexgrp(t, slots[k].w));
+            k += 1;
+        }
+        let mut a = parts.join(":");
+        if q {
+            let mut o: Vec<String> = Vec::new();
+            for _ in 0..4 {
+                o.push(octet(t, slots[k].w));
+                k += 1;
+            }
+            a.push(':');
+            a.push_str(&o.join("."));
+        }
+        line.push_str(&a);
+        line.push(' ');
+    }
+    line.push_str(&port(t, slots[k].w));
+    line.push(' ');
+    line.push_str(&port(t, slots[k + 1].w));
+    line.push_str("\r\n");
+    line.into_bytes()
+}
+
 /// A line that R-V1 accepts (by construction; callers still ask the oracle).
 pub fn gen_valid_parts(t: &mut Tape, ascii_only: bool) -> V1Parts {
     let mut p = V1Parts { keyword: b"PROXY".to_vec(), proto: vec![], fields: vec![], tail: vec![], ending: b"\r\n".to_vec() };
@@ -312,6 +442,11 @@ pub fn gen_valid_parts(t: &mut Tape, ascii_only: bool) -> V1Parts {
 }
 
 pub fn gen_valid_line(t: &mut Tape, ascii_only: bool) -> Vec<u8> {
+    // one valid line in eight is a TCP6 line built to land exactly on 100..=107 bytes (the longest legal lines)
+    if t.chance(1, 8) {
+        let target = *t.pick(&[107usize, 106, 105, 104, 103, 102, 101, 100]);
+        return gen_tcp6_line_of_len(t, target);
+    }
     gen_valid_parts(t, ascii_only).render()
 }
 
@@ -513,6 +648,10 @@ pub fn gen_v1_mutant(t: &mut Tape) -> (Vec<u8>, &'static str) {
             // every field well-formed, but the fully expanded spelling (dotted-quad tail, padded groups) takes the
             // line past 107 bytes: 108..116
             label = "tcp6-too-long";
+            if kind == 25 {
+                let target = *t.pick(&[108usize, 108, 109, 110, 111, 112, 116]);
+                return (gen_tcp6_line_of_len(t, target), label);
+            }
             let grp = |t: &mut Tape| -> String {
                 let v = match t.below(3) {
                     0 => 0xffffu16,
